@@ -212,7 +212,7 @@ class Ctx:
         cov.update(self.notes)
         if not cov["samples"]:
             raise Infra("no samples recorded: the check explored nothing")
-        if self.level != "model_checking":
+        if self.level != "model_checking" or not cov.get("states") or not cov.get("transitions"):
             for k in ("states", "transitions", "traces_validated_against_impl"):
                 if not cov.get(k):
                     cov.pop(k, None)
